@@ -156,6 +156,7 @@ impl<'store> Transposable<'store> for ResultTextSelectionSet<'store> {
         // that we are dealing with a simple transposition instead) the source side that matches
         // can never be the same as the target side that is mappped to
         while let Some(tsel) = tselbuffer.pop_front() {
+            let mut matched = false; //was (the begin of) this text selection found in any side?
 
             // iterate over all the sides
             for (side_i, annotation) in via.annotations_in_targets(AnnotationDepth::One).enumerate()
@@ -230,6 +231,7 @@ impl<'store> Transposable<'store> for ResultTextSelectionSet<'store> {
                                 resource.handle().into(),
                                 source_offset,
                             ));
+                            matched = true;
                             break;
                         }
                     }
@@ -237,6 +239,16 @@ impl<'store> Transposable<'store> for ResultTextSelectionSet<'store> {
             }
             if simple_transposition {
                 break;
+            }
+            if !matched {
+                //(part of) the source lies outside the transposition, it must not be dropped silently
+                return Err(StamError::TransposeError(
+                    format!(
+                        "Not all source fragments were found in the complex transposition {}, not enough to transpose",
+                        via.id().unwrap_or("(no-id)"),
+                    ),
+                    "",
+                ));
             }
         }
 
